@@ -59,6 +59,30 @@ theorem getNodeByLabels_spec {c : Dag} (h : DagInv c) (labels : List String) (n 
       exact List.count_pos_iff.mp this
   · exact nodup_getNodeByLabels_aux c labels _ g.inv.ids_nodup
 
+/-- **`get_node_exclude_labels(labels)` = the nodes none of whose keys is one of the labels** (a duplicate-free list) -/
+theorem getNodeExcludeLabels_spec {c : Dag} (h : DagInv c) (labels : List String) (n : NodeId) :
+    (n ∈ c.getNodeExcludeLabels labels ↔ n ∈ c.nodeIds ∧ ∀ l ∈ labels, l ∉ c.keysAt n) ∧ (c.getNodeExcludeLabels labels).Nodup := by
+  obtain ⟨P, g⟩ := h
+  constructor
+  · unfold getNodeExcludeLabels
+    rw [List.mem_filter]
+    simp only [Bool.not_eq_true', List.any_eq_false, List.contains_iff_mem]
+    constructor
+    · rintro ⟨h1, h2⟩
+      refine ⟨h1, fun l hl hk => ?_⟩
+      have := (indexCount_pos_iff c n l).mpr hk
+      rw [← g.inv.nodeDict_ok] at this
+      exact h2 l hl (by simpa using List.count_pos_iff.mp this)
+    · rintro ⟨h1, h2⟩
+      refine ⟨h1, fun l hl => ?_⟩
+      have : ¬ n ∈ dictGet c.nodeDict l := by
+        intro hm
+        have hc : 0 < (dictGet c.nodeDict l).count n := List.count_pos_iff.mpr hm
+        rw [g.inv.nodeDict_ok] at hc
+        exact h2 l hl ((indexCount_pos_iff c n l).mp hc)
+      simpa using this
+  · exact g.inv.ids_nodup.filter _
+
 /-- two duplicate-free lists with the same members have the same length -/
 theorem length_eq_of_nodup_of_mem_iff {α : Type} {l1 l2 : List α} (h1 : l1.Nodup) (h2 : l2.Nodup)
     (h : ∀ x, x ∈ l1 ↔ x ∈ l2) : l1.length = l2.length := by
